@@ -73,7 +73,7 @@ class World:
             pool = list(names)
             if pool and rng.random() < 0.6:
                 for bn in rng.sample(pool, min(len(pool), rng.choice([1, 1, 2]))):
-                    cls['bases'].append({'name': bn, 'access': rng.choice(['public', 'public', 'public', 'protected', 'private']), 'virtual': rng.random() < 0.25})
+                    cls['bases'].append({'name': bn, 'access': rng.choice(['public', 'public', 'public', 'protected', 'private']), 'virtual': rng.random() < 0.25, 'virtual_first': rng.random() < 0.5})
             known = names + [name]
             used = set()
             for _ in range(rng.randrange(1, 8)):
@@ -128,10 +128,21 @@ class World:
                     used.add(('seq', sn))
                     cls['members'].append({'kind': 'seq', 'name': 'get_' + sn + 's', 'length': 'get_num_' + sn + 's', 'element': 'get_' + sn, 'type': rng.choice(SCALARS)})
                 elif kind == 'operator':
-                    op = rng.choice(['+', '-', '==', '<', '[]'])
-                    if ('op', op) in used:
+                    op = rng.choice(['+', '-', '==', '<', '[]', '()', 'neg', 'not', 'call2'])
+                    opname = {'neg': '-', 'not': '!', 'call2': '()'}.get(op, op)
+                    if ('op', opname) in used:
                         continue
-                    used.add(('op', op))
+                    used.add(('op', opname))
+                    if op == 'call2':
+                        # the call operator as an overload set with a nullary member: one function, two variants
+                        cls['members'].append({'kind': 'overload', 'name': 'operator ()', 'const': True, 'unary': False,
+                                               'overloads': [[], [{'name': 'arg0', 'type': {'src': 'int', 'db': 'int', 'cls': None}, 'default': None}]]})
+                        continue
+                    if op in ('()', 'neg', 'not'):
+                        # no parameters: a unary operator, except for the call operator
+                        cls['members'].append({'kind': 'operator', 'op': opname, 'name': 'operator ' + opname, 'ret': {'src': 'int', 'db': 'int', 'owns': False}, 'params': [], 'const': True,
+                                               'unary': op != '()'})
+                        continue
                     cls['members'].append({'kind': 'operator', 'op': op, 'name': 'operator ' + op, 'ret': {'src': 'int', 'db': 'int', 'owns': False},
                                            'params': [{'name': 'rhs', 'type': {'src': 'int', 'db': 'int', 'cls': None}, 'default': None}], 'const': True})
                 else:
@@ -224,7 +235,7 @@ class World:
         for c in self.classes:
             b = ''
             if c['bases']:
-                b = ' : ' + ', '.join(('virtual ' if x['virtual'] else '') + x['access'] + ' ' + x['name'] for x in c['bases'])
+                b = ' : ' + ', '.join(((('virtual ' + x['access']) if x.get('virtual_first', True) else (x['access'] + ' virtual')) if x['virtual'] else x['access']) + ' ' + x['name'] for x in c['bases'])
             c['comment'] = comment_before(c['name'])
             L.append('%s %s%s {' % (c['keyword'], c['name'], b))
             L.append('__published:')
